@@ -49,7 +49,21 @@ def build(kind, log, refs=None, coroutine=None):
     is_async = kind == 'async'
     if coroutine is None:
         coroutine = is_async
-    s = Sys(kind, methods.STD_TABLE, coroutine_methods=coroutine)
+    # a generic (identity) error handler and a handler registered for -32000 that rewrites the error: lists owned by the "user"
+    from pjrpc.common.exceptions import JsonRpcError as _E
+    if is_async:
+        async def h_generic(request, context, error):
+            return error
+
+        async def h_server(request, context, error):
+            return _E(9100, 'tagged')
+    else:
+        def h_generic(request, context, error):
+            return error
+
+        def h_server(request, context, error):
+            return _E(9100, 'tagged')
+    s = Sys(kind, methods.STD_TABLE, coroutine_methods=coroutine, error_handlers={None: [h_generic], -32000: [h_server]})
     d = s.d
     log = s.log
     js = vjs.JsonSchemaValidator()
@@ -61,6 +75,10 @@ def build(kind, log, refs=None, coroutine=None):
             self.context = context
             if refs is not None:
                 refs.append(weakref.ref(self))
+
+        def alive(self):
+            log.append(('alive', dict(ctx=getattr(self.context, 'tag', None))))
+            return True
 
         def vpd(self, a: int):
             log.append(('vpd', dict(a=a, ctx=getattr(self.context, 'tag', None))))
@@ -100,6 +118,23 @@ def build(kind, log, refs=None, coroutine=None):
         log.append(('pdv2', dict(a=a, b=b)))
         return [a, b]
 
+    # parameterless methods and context-only methods whose signatures coincide once the context is removed
+    def ping():
+        log.append(('ping', {}))
+        return 'pong'
+
+    def whoami(ctx):
+        log.append(('whoami', dict(ctx=getattr(ctx, 'tag', None))))
+        return getattr(ctx, 'tag', None)
+
+    def limits(limit=10):
+        log.append(('limits', dict(limit=limit)))
+        return limit
+
+    def page(ctx, limit=10):
+        log.append(('page', dict(limit=limit, ctx=getattr(ctx, 'tag', None))))
+        return [getattr(ctx, 'tag', None), limit]
+
     def withctx(ctx, a=1):
         log.append(('withctx', dict(a=a, ctx=getattr(ctx, 'tag', None))))
         t = Token(a)
@@ -128,6 +163,7 @@ def build(kind, log, refs=None, coroutine=None):
             return w
         withctx, jsv, pdv = co(withctx), co(jsv), co(pdv)
         jsfmt_strict, jsfmt_lenient, pdv2 = co(jsfmt_strict), co(jsfmt_lenient), co(pdv2)
+        ping, whoami, limits, page = co(ping), co(whoami), co(limits), co(page)
     d.registry.view(View, context='context')
     d.add(withctx, name='withctx', context='ctx')
     d.add(jsv, name='jsv', context='ctx')
@@ -135,6 +171,10 @@ def build(kind, log, refs=None, coroutine=None):
     d.add(jsfmt_strict, name='jsfmt_strict')
     d.add(jsfmt_lenient, name='jsfmt_lenient')
     d.add(pdv2, name='pdv2')
+    d.add(ping, name='ping')
+    d.add(whoami, name='whoami', context='ctx')
+    d.add(limits, name='limits')
+    d.add(page, name='page', context='ctx')
     return s
 
 
@@ -157,6 +197,7 @@ ALPHABET = [
     ('vpd', call('vpd', [1])), ('vpdfail', call('vpd', ['x'])), ('vjs', call('vjs', [1])), ('vjsfail', call('vjs', ['x'])),
     ('fmt-strict-bad', call('jsfmt_strict', ['not-an-ip'])), ('fmt-strict-ok', call('jsfmt_strict', ['1.2.3.4'])),
     ('fmt-lenient', call('jsfmt_lenient', ['not-an-ip'])), ('pdv2', call('pdv2', ['s'])), ('pdv2fail', call('pdv2', {'a': 's', 'b': 'x'})),
+    ('ping', call('ping')), ('whoami', call('whoami')), ('limits', call('limits')), ('page', call('page')), ('alive', call('alive')),
     ('parse', '{"jsonrpc": "2.0", '), ('invalid', '{"jsonrpc":"2.0","id":1}'), ('boomt', call('boomt')),
 ]
 TEXT = dict(ALPHABET)
@@ -253,6 +294,7 @@ def run_retention(case, rec):
 
 # ---- (c) -------------------------------------------------------------------------------------------------------
 PAIRS = [
+    ('whoami', 'ping'), ('page', 'limits'),
     ('view', 'view'), ('ok', 'ok'), ('ctx', 'view'), ('ok', 'boom'), ('batch', 'ctx'), ('jsok', 'jsfail'),
     ('nobind', 'ok'), ('pdok', 'pdok'), ('viewfail', 'view'), ('ctxinject', 'ctx'), ('perr', 'unknown'), ('notif', 'parse'),
     ('fmt-strict-bad', 'fmt-lenient'), ('vpd', 'vjs'), ('pdv2', 'pdok'), ('vpd', 'vpd'),
